@@ -23,14 +23,21 @@ namespace hgraph::stdlib
      * Pass-through node: emits exactly the input delta. This mirrors Python's
      * ``pass_through_node`` and is useful both for tests and for forcing a real
      * runtime node into a graph without changing the data.
+     *
+     * The first observation transports the input's current state: a node that
+     * starts on an already-valid composite input (a sampled nested-boundary
+     * bind, e.g. the identity ``switch_`` materialises for a direct boundary
+     * return) sees its ``TSL`` / ``TSB`` children valid but not modified, so
+     * the per-cycle delta alone would never deliver them.
      */
     struct pass_through_node
     {
         static constexpr auto name = "pass_through_node";
 
-        static void eval(In<"ts", TsVar<"S">> ts, Out<TsVar<"S">> out)
+        static void eval(In<"ts", TsVar<"S">> ts, State<Bool> live, Out<TsVar<"S">> out)
         {
-            const Value delta = capture_delta(ts.base());
+            const Value delta = live.get() ? capture_delta(ts.base()) : capture_current_delta(ts.base());
+            live.set(true);
             apply_delta(out, delta.view());
         }
     };
